@@ -8,7 +8,7 @@
 From Coq Require Import ZArith List Bool.
 From MomoCommon Require Import GenPrelude.
 From C20 Require Import PoolAlloc.
-From C20 Require Gen_PoolAllocator Gen_MemPoolOps.
+From C20 Require Gen_PoolAllocator Gen_MemPoolOps Gen_MemPoolNewBlock.
 Local Open Scope Z_scope.
 
 Section DiffRun.
@@ -54,3 +54,25 @@ Definition gen_dealloc (st : state) (h : nat) (n : Z) : Z * Z * Z :=
   else (r, Z.of_nat (pcount P), Z.of_nat (cached st p)).
 
 End DiffRun.
+
+(* The GENERATED pvNewBlock executed on the observed pre-state of the head buffer (first free index, free count, whether a next
+   buffer exists, the next-free link stored in the block that will be handed out).  Instantiation: head buffer = 100, its next
+   buffer = 200 (or null), a newly allocated buffer = 300; BufferBytes (f, c) is packed as (f + 200) * 1000 + c; stores of the
+   list links are ignored, the store of the head's BufferBytes is the resulting [mem].
+   Result: (new head: 0 = same buffer | 1 = the old next buffer | 2 = a new buffer, first free index after, free count after). *)
+Definition pack_bytes (f c : Z) : Z := (f + 200) * 1000 + c.
+Definition gen_newblock (first count : Z) (nextnull : bool) (nf : Z) : Z * Z * Z :=
+  match Gen_MemPoolNewBlock.pvNewBlock
+          (fun _ => pack_bytes first count)                 (* load_bytes *)
+          (fun _ => if nextnull then 0 else 200)            (* load_next *)
+          (fun _ idx => idx + 10000)                        (* block_at *)
+          (fun _ => nf)                                     (* load_next_free *)
+          300                                               (* new_buffer *)
+          (fun _ _ v => v)                                  (* st_bytes *)
+          (fun m _ _ => m) (fun m _ _ => m)                 (* st_next, st_prev *)
+          (fun v => v / 1000 - 200) (fun v => v mod 1000)   (* bytes_first, bytes_count *)
+          pack_bytes
+          100 0 false with
+  | Ok (_, head', mem') => ((if head' =? 100 then 0 else if head' =? 200 then 1 else 2), mem' / 1000 - 200, mem' mod 1000)
+  | _ => (-1, 0, 0)
+  end.
